@@ -88,6 +88,15 @@ def aggregate(prop, tier: str, seed: int, results: List[Dict[str, Any]], wall: f
             v = dict(v)
             v["spec"] = spec
             violations.append(v)
+    if hasattr(prop, "post"):
+        # cross-chunk oracle (e.g. the same cases under different hash seeds)
+        extra = prop.post(specs, results) or {}
+        for k, v in (extra.get("counters") or {}).items():
+            counters[k] = counters.get(k, 0) + v
+        for v in (extra.get("violations") or []):
+            violations.append(dict(v))
+        inconclusive += list(extra.get("inconclusive") or [])
+        hashes.update(extra.get("hashes") or [])
     if hasattr(prop, "quota"):
         inconclusive += list(prop.quota(counters, tier) or [])
 
